@@ -5,7 +5,8 @@ harness snapshots all raw keys of the in-flight block state (through the public 
 decoded ledger.  For a transaction that failed after authentication exactly one raw key may differ - the signer's account -
 and in it only nonce (+1) and balance (-fee); for one rejected at or before authentication no key may differ.  CheckTx and
 EstimateGas bursts between commits must leave the committed root unchanged (checked by the driver).
-Scenarios: every staking method, node registration and unfreeze; invalid in every single respect (nonce, balance, fee not
+Scenarios: every staking method, node registration and unfreeze, runtimes, governance, executor commitments, VRF proofs, vaults
+(TraceVault.tla: a failed transaction leaves the vault state - policies, bucket accounting, pending actions - as it was); invalid in every single respect (nonce, balance, fee not
 covered, gas limit at every exhaustion point, malformed body, bad signature, other chain, other domain, junk bytes, replays).
 """
 import vlib
@@ -23,15 +24,19 @@ def mutate(events):
 def run(ctx):
     ctx.assumptions += [
         "raw key snapshots cover the complete consensus state tree (all applications)",
-        "governance, roothash, vault and key-manager methods are not generated yet (see DESIGN.md)",
+        "key-manager methods and runtime messages are not generated (see DESIGN.md)",
     ]
     if ctx.replay:
         raise vlib.Infra("re-run the tier with the same VERIF_SEED to reproduce")
     d = vlib.copy_specs(ctx, "consensus")
     res = vlib.run_tlc(ctx, d, "MCLedger", "design_ledger_quick.cfg", timeout=3000)
     vlib.tlc_must_pass(ctx, res, "design run LedgerModel")
-    ctx.coverage.update(states=res.distinct, transitions=res.generated)
+    # the vault application's model: quota, authority, suspension and nonce statements for all behaviours of one vault
+    rv = vlib.run_tlc(ctx, d, "MCVault", "design_vault_quick.cfg" if ctx.quick() else "design_vault_thorough.cfg", timeout=3000)
+    vlib.tlc_must_pass(ctx, rv, "design run Vault")
+    ctx.coverage.update(states=res.distinct + rv.distinct, transitions=res.generated + rv.generated, vault_design_states=rv.distinct)
     lines, sums = cc.ledger_check(ctx, "C08", "traceledger_c08.cfg", mutate, "tx atomicity")
+    cc.vault_check(ctx, ctx.vault_lines, "C08")
     failed_after = sum(1 for ln in lines if '"ev":"tx"' in ln and '"code":0,' not in ln and '"nraw":1' in ln)
     rejected = sum(1 for ln in lines if '"ev":"tx"' in ln and '"code":0,' not in ln and '"nraw":0' in ln)
     ctx.coverage.update(failed_after_auth=failed_after, rejected_before_effect=rejected)
